@@ -2317,15 +2317,16 @@ def cbw(info):
         s = 32
         src = a[:16]
         dst = a[:32]
-    int_cast = tab_uintsize[s]
+    int_cast = tab_uintsize[s//2]
 
     byte_h_0 = ExprInt(int_cast(0))
     byte_h_f = ExprInt(int_cast(((1<<(s//2))-1)))
 
     mask = ExprCond(get_op_msb(src), byte_h_f, byte_h_0)
     e = []
-    e.append(ExprAff(a, ExprCompose([(a,    0, s//2),
-                                     (mask, s//2, s)])))
+    # only ax (cbw) / eax (cwde) is written
+    e.append(ExprAff(dst, ExprCompose([(src,  0, s//2),
+                                       (mask, s//2, s)])))
     return e
 
 def cwd(info):
